@@ -69,6 +69,14 @@ def lattice_items(tier, seed):
           for init in ("linear_initializer", "random_uniform_or_linear_initializer"):
             out.append(dict(kind="lattice", sizes=sizes, units=1, mono=[0] * d, uni=[0] * d, lo=0.0,
                             hi=1.0, init=init, seed=0, ju=[[list(dims), direction]]))
+  # high-rank lattices (internal code paths switch at rank 7/8): a few shape assignments only
+  for sizes in ([2] * 8, [2] * 9, [2, 2, 2, 2, 2, 2, 2, 3]):
+    d = len(sizes)
+    for mono in ([1] * d, [1, 0] * (d // 2) + [1] * (d % 2), [0] * (d - 1) + [1], [1] + [0] * (d - 1)):
+      for lo, hi in ((None, None), (0.0, 16.0), (10.0, 30.0)):
+        for init in ("linear_initializer", "random_monotonic_initializer"):
+          out.append(dict(kind="lattice", sizes=sizes, units=1, mono=list(mono), uni=[0] * d, lo=lo, hi=hi,
+                          init=init, seed=seed, ju=None))
   # explicit init_min / init_max through create_kernel_initializer
   for sizes in ([2, 2], [3, 2]):
     for imin, imax in ((-1.0, 4.0), (0.25, 0.5)):
